@@ -9,6 +9,8 @@
 import Desync.Proofs.CrashFSProofs
 import Desync.Proofs.LocalStoreProofs
 import Desync.Proofs.ExtractTmpProofs
+import Desync.Proofs.AssembleComplete
+import Desync.Proofs.AssembleConcProofs
 
 namespace Desync.C08
 open Desync Desync.CrashFS
@@ -151,5 +153,27 @@ theorem extract_tmp_atomic (cf : ExtractTmp.Cfg) (hne : cf.dest ≠ cf.tmp) (s0 
     ExtractTmp.lookup s.dir cf.dest = ExtractTmp.lookup s0.dir cf.dest ∨
     ExtractTmp.lookup s.dir cf.dest = some cf.output :=
   ExtractTmp.extract_tmp_atomic cf hne s0 s h0 h
+
+/-- **What a killed in-place extract leaves behind**: every state of the N-worker assemble machine
+    is a possible crash point; in each the positions already settled hold the blob's bytes … -/
+theorem inplace_crash_state {e : AsmConc.Env} {blob prior : Bytes} {n : Nat} {s : AsmConc.St}
+    (hwf : AsmConc.WF e blob) (h : AsmConc.Reachable e (AsmConc.init e prior n) s) (p : Nat)
+    (hp : (∃ (k f l : Nat), k ∈ s.finished ∧ e.plan[k]? = some (f, l) ∧ f ≤ p ∧ p ≤ l) ∨
+          (∃ (w : Nat) (wk : AsmConc.Worker) (j : AsmConc.Job), s.workers[w]? = some wk ∧ wk.job = some j ∧
+            j.first ≤ p ∧ p < j.first + j.good)) :
+    s.file.length = blob.length ∧
+    Asm.readUpTo s.file (e.startOf p) (e.sizeOf p) = AsmConc.chunkData e blob p :=
+  ⟨AsmConc.conc_length hwf h, AsmConc.settled_correct hwf h p hp⟩
+
+/-- … and **the re-run** on any full-length file completes with the exact blob and goes to the
+    store at most once per position whose bytes are not already correct: chunks the dead run had
+    written are not fetched again -/
+theorem inplace_resume {cf : Asm.Cfg} {e : Asm.Env} {blob : Bytes} {files : List Bytes} {t0 : Bytes}
+    (hwf : Asm.WFSeq cf e blob) (hst : Asm.StoreComplete cf e blob) (hnull : Asm.NullIsZeros cf e)
+    (hb : cf.isBlank = Asm.isBlankOf (some t0)) (hlen : t0.length = blob.length) (hne : blob ≠ []) :
+    ∃ r, Asm.assemble cf e [] files (some t0) = some r ∧ r.fs.target = blob ∧
+      r.stats.fromStore ≤ ((List.range e.chunks.length).filter
+        (fun p => Asm.readUpTo t0 (e.startOf p) (e.sizeOf p) ≠ Asm.chunkData e blob p)).length :=
+  Asm.inplace_resume hwf hst hnull hb hlen hne
 
 end Desync.C08
